@@ -53,10 +53,10 @@ def check(F, R, tier):
     R.floor('parameter-mismatch refusals after reserve_port', n, 6)
     for c in cu:
         t = sym_nstr(sym(f, c.args[1]))
-        R.ob('FLOW', 'FLOW::%s::cleanup-removes-the-reserved-role' % fnkey(f), t == 'port_to_register', 'cleanup_shared_memory(.., %s); required the role that was reserved (port_to_register)' % t, c.where, f)
+        R.ob('FLOW', 'FLOW::%s::cleanup-removes-the-reserved-role' % fnkey(f), lib.param_is(f, c.args[1], 'port_to_register', 2), 'cleanup_shared_memory(.., %s); required the role that was reserved (port_to_register)' % t, c.where, f)
     for c in rp:
         t = sym_nstr(sym(f, c.args[1]))
-        R.ob('FLOW', 'FLOW::%s::reserves-the-requested-role' % fnkey(f), 'port_to_register' in t, 'reserve_port(%s)' % t, c.where, f)
+        R.ob('FLOW', 'FLOW::%s::reserves-the-requested-role' % fnkey(f), lib.has_origin(f, c.args[1], None, ('port_to_register', 2)), 'reserve_port(%s)' % t, c.where, f)
     ro = f.calls(r'DynamicStorage.*::release_ownership$')
     ho = f.calls(r'DynamicStorage.*::has_ownership$')
     dom(R, f, rp, ro, 'reserve_port<release_ownership', 'the creator hands the storage to "whoever leaves last" only once it is attached itself')
@@ -119,7 +119,7 @@ def check(F, R, tier):
             t_ = sym_nstr(sym(g, s.site.args[1]))
             R.ob('CONST-ARG', 'CONST-ARG::%s::channel-state=CLOSED' % fnkey(g), 'CHANNEL_STATE_CLOSED' in t_, 'channel state stored: %s' % t_, s.site.where, g)
         for x in cs:
-            R.ob('FLOW', 'FLOW::%s::removes-the-given-role' % fnkey(g), sym_nstr(sym(g, x.args[1])) == 'port', 'cleanup_shared_memory(.., %s)' % sym_nstr(sym(g, x.args[1])), x.where, g)
+            R.ob('FLOW', 'FLOW::%s::removes-the-given-role' % fnkey(g), lib.param_is(g, x.args[1], 'port', 4), 'cleanup_shared_memory(.., %s)' % sym_nstr(sym(g, x.args[1])), x.where, g)
     else:
         R.missing('Connection::remove_port')
     # ---- reserve_port / remove_state
@@ -141,7 +141,7 @@ def check(F, R, tier):
         R.ob('LOOP', key, all(rpf.dominates(g, c.site) for c in cas) and p is None, 'the refusal test `%s` dominates the role CAS and is re-evaluated after a failed CAS' % cond, g.where, rpf)
     for c in cas:
         t = sym_nstr(sym(rpf, c.site.args[2]))
-        R.ob('SYM-EQ', 'SYM-EQ::%s::CAS-new=current|new_state' % fnkey(rpf), '|' in t and 'new_state' in t, 'CAS installs `%s`' % t, c.site.where, rpf)
+        R.ob('SYM-EQ', 'SYM-EQ::%s::CAS-new=current|new_state' % fnkey(rpf), '|' in t and lib.has_origin(rpf, c.site.args[2], None, ('new_state', 2)), 'CAS installs `%s`' % t, c.site.where, rpf)
     rsf = F.fn(ZC + 'SharedManagementData::remove_state')
     cas = atomics(rsf, r'^self\.state$', 'compare_exchange(_weak)?')
     for c in cas:
